@@ -341,13 +341,22 @@ func (b *BaseType) UnmarshalJSON(data []byte) error {
 		return err
 	}
 
+	if !isAtomicType(bt.Type) {
+		return fmt.Errorf("non atomic type %s in <base-type>", bt.Type)
+	}
 	if bt.Enum != nil {
 		// 'enum' is a list or a single element representing a list of exactly one element
 		switch bt.Enum.(type) {
 		case []interface{}:
 			// it's an OvsSet
 			oSet := bt.Enum.([]interface{})
-			innerSet := oSet[1].([]interface{})
+			if len(oSet) != 2 || oSet[0] != "set" {
+				return fmt.Errorf("enum is not a <set>: %v", bt.Enum)
+			}
+			innerSet, ok := oSet[1].([]interface{})
+			if !ok {
+				return fmt.Errorf("enum is not a <set>: %v", bt.Enum)
+			}
 			b.Enum = make([]interface{}, len(innerSet))
 			copy(b.Enum, innerSet)
 		default:
@@ -546,6 +555,9 @@ func (c *ColumnSchema) UnmarshalJSON(data []byte) error {
 		return fmt.Errorf("cannot parse column object %s", err)
 	}
 
+	if colJSON.Type == nil || colJSON.Type.Key == nil {
+		return fmt.Errorf("cannot parse column object: missing type")
+	}
 	c.ephemeral = colJSON.Ephemeral
 	c.mutable = colJSON.Mutable
 	c.TypeObj = colJSON.Type
